@@ -17,8 +17,20 @@ let rec int_of_pos (p : positive) : int =
 let int_of_n (n : coq_N) : int = match n with N0 -> 0 | Npos p -> int_of_pos p
 
 (* decimal strings for values that may exceed 62 bits are not needed: all model values are < 2^62 *)
-let n_of_string (s : string) : coq_N = n_of_int (int_of_string s)
-let string_of_n (n : coq_N) : string = string_of_int (int_of_n n)
+(* arbitrary-size decimal conversion through Coq's own N arithmetic *)
+let n_of_string (s : string) : coq_N =
+  if String.length s <= 17 then n_of_int (int_of_string s)
+  else begin
+    let acc = ref N0 in
+    String.iter (fun c -> acc := BinNat.N.add (BinNat.N.mul !acc (n_of_int 10)) (n_of_int (Char.code c - 48))) s;
+    !acc
+  end
+let rec string_of_n (n : coq_N) : string =
+  match BinNat.N.compare n (n_of_int 1000000000000000) with
+  | Datatypes.Lt -> string_of_int (int_of_n n)
+  | _ ->
+    let q = BinNat.N.div n (n_of_int 1000000000) and r = BinNat.N.modulo n (n_of_int 1000000000) in
+    string_of_n q ^ Printf.sprintf "%09d" (int_of_n r)
 
 let rec nat_of_int (i : int) : Datatypes.nat = if i <= 0 then Datatypes.O else Datatypes.S (nat_of_int (i - 1))
 
@@ -56,3 +68,30 @@ let err_name (e : Base.error) : string =
   | Base.EDirectoryIsNotEmpty -> "DirectoryIsNotEmpty" | Base.ECorruptedFileSystem -> "CorruptedFileSystem"
   | Base.ENotEnoughSpace -> "NotEnoughSpace" | Base.EInvalidFileNameLength -> "InvalidFileNameLength"
   | Base.EUnsupportedFileNameCharacter -> "UnsupportedFileNameCharacter"
+
+let error_of_name (s : string) : Base.error option =
+  match s with
+  | "Io" -> Some Base.EIo | "UnexpectedEof" -> Some Base.EUnexpectedEof | "WriteZero" -> Some Base.EWriteZero
+  | "InvalidInput" -> Some Base.EInvalidInput | "NotFound" -> Some Base.ENotFound | "AlreadyExists" -> Some Base.EAlreadyExists
+  | "DirectoryIsNotEmpty" -> Some Base.EDirectoryIsNotEmpty | "CorruptedFileSystem" -> Some Base.ECorruptedFileSystem
+  | "NotEnoughSpace" -> Some Base.ENotEnoughSpace | "InvalidFileNameLength" -> Some Base.EInvalidFileNameLength
+  | "UnsupportedFileNameCharacter" -> Some Base.EUnsupportedFileNameCharacter
+  | _ -> None
+
+(* to_uppercase table: lines "<cp> <u1> [<u2> <u3>]" *)
+let upper_tbl : (int, coq_N list) Hashtbl.t = Hashtbl.create 2048
+let load_upper (path : string) : unit =
+  let ic = open_in path in
+  (try
+     while true do
+       let l = input_line ic in
+       match split_ws l with
+       | cp :: ups -> Hashtbl.replace upper_tbl (int_of_string cp) (Stdlib.List.map n_of_string ups)
+       | [] -> ()
+     done
+   with End_of_file -> ());
+  close_in ic
+let upper (c : coq_N) : coq_N list =
+  match Hashtbl.find_opt upper_tbl (int_of_n c) with Some l -> l | None -> [c]
+let oem_lossy (b : coq_N) : coq_N = if int_of_n b <= 127 then b else n_of_int 0xFFFD
+let oem_table (b : coq_N) : coq_N = let i = int_of_n b in if i <= 127 then b else n_of_int (0x100 + i - 0x80)
